@@ -189,8 +189,13 @@ static void account(const Case &c, const Info &info, uint64_t h) {
 extern "C" int LLVMFuzzerInitialize(int *argc, char ***argv) { return fuzz_init(argc, argv); }
 extern "C" int LLVMFuzzerTestOneInput(const uint8_t *data, size_t size) {
     Case c;
-    if(size > 4 && memcmp(data, "c02 ", 4) == 0) c = deser(std::string((const char *)data, size));
-    else {
+    if(size > 4 && memcmp(data, "c02 ", 4) == 0) {
+        c = deser(std::string((const char *)data, size));
+        // a saved case, possibly mutated by the fuzzer: keep only what the generators can produce
+        if((c.version != 1 && c.version != 2) || c.route < 0 || c.route > 2 || c.chips < 1 || c.chips > 3 || c.emu < 0 || c.emu > EMU_NUKED2612 || c.emu == EMU_VGM || c.family < -1 || c.family > 1 || c.ins.size() > 8 || c.ops.size() > 200) return 0;
+        for(HIns &h : c.ins) { h.perc &= 1; h.prog &= 127; if(c.route == 1) { h.msb &= 127; h.lsb &= 127; } else { h.msb &= 255; h.lsb &= 255; h.vel_off = 0; h.flags = 0; if(c.version < 2) h.msb = h.lsb = 0; } if(h.vel_off < -128 || h.vel_off > 127) h.vel_off = 0; h.flags &= 255; }
+        for(Op &p : c.ops) if(p.kind == O_ADVANCE && (p.a < 0 || p.a > 3000)) p.a = 10;
+    } else {
         Bytes b(data, size);
         c.route = 2; c.chips = (int)b.u(1, 2); c.volmodel = (int)b.u(0, 6); c.family = (int)b.u(0, 2) - 1;
         int nops = (int)b.u(0, 10);
